@@ -28,7 +28,6 @@ from dask.array.creation import arange, diagonal
 from dask.array.dispatch import divide_lookup, nannumel_lookup, numel_lookup
 from dask.array.numpy_compat import NUMPY_GE_200
 from dask.array.utils import (
-    array_safe,
     asarray_safe,
     is_arraylike,
     meta_from_array,
@@ -117,12 +116,33 @@ def min(a, axis=None, keepdims=False, split_every=None, out=None):
     )
 
 
+def _empty_partial(x, axis):
+    """Partial result of a min/max reduction for a block that is empty along
+    one of the reduced axes, or None if there is no such axis
+
+    It has length 0 along the reduced axes on which the block is empty, so that
+    it disappears when the partial results are concatenated, length 1 along the
+    other reduced axes and the block's own length elsewhere.
+    """
+    if axis is None:
+        axis = range(x.ndim)
+    elif isinstance(axis, Integral):
+        axis = (axis,)
+    axis = [ax % x.ndim for ax in axis]
+    if builtins.all(x.shape[ax] for ax in axis):
+        return None
+    shape = tuple(
+        builtins.min(n, 1) if i in axis else n for i, n in enumerate(x.shape)
+    )
+    return np.empty_like(x, shape=shape)
+
+
 def chunk_min(x, axis=None, keepdims=None):
     """Version of np.min which ignores size 0 arrays"""
-    if x.size == 0:
-        return array_safe([], x, ndmin=x.ndim, dtype=x.dtype)
-    else:
-        return np.min(x, axis=axis, keepdims=keepdims)
+    empty = _empty_partial(x, axis) if x.size == 0 else None
+    if empty is not None:
+        return empty
+    return np.min(x, axis=axis, keepdims=keepdims)
 
 
 @implements(np.max, np.amax)
@@ -143,10 +163,10 @@ def max(a, axis=None, keepdims=False, split_every=None, out=None):
 
 def chunk_max(x, axis=None, keepdims=None):
     """Version of np.max which ignores size 0 arrays"""
-    if x.size == 0:
-        return array_safe([], x, ndmin=x.ndim, dtype=x.dtype)
-    else:
-        return np.max(x, axis=axis, keepdims=keepdims)
+    empty = _empty_partial(x, axis) if x.size == 0 else None
+    if empty is not None:
+        return empty
+    return np.max(x, axis=axis, keepdims=keepdims)
 
 
 @derived_from(np)
@@ -286,16 +306,12 @@ def nanmin(a, axis=None, keepdims=False, split_every=None, out=None):
 
 
 def _nanmin_skip(x_chunk, axis, keepdims):
-    if x_chunk.size > 0:
-        with warnings.catch_warnings():
-            warnings.filterwarnings(
-                "ignore", "All-NaN slice encountered", RuntimeWarning
-            )
-            return np.nanmin(x_chunk, axis=axis, keepdims=keepdims)
-    else:
-        return asarray_safe(
-            np.array([], dtype=x_chunk.dtype), like=meta_from_array(x_chunk)
-        )
+    empty = _empty_partial(x_chunk, axis) if x_chunk.size == 0 else None
+    if empty is not None:
+        return empty
+    with warnings.catch_warnings():
+        warnings.filterwarnings("ignore", "All-NaN slice encountered", RuntimeWarning)
+        return np.nanmin(x_chunk, axis=axis, keepdims=keepdims)
 
 
 @derived_from(np)
@@ -319,16 +335,12 @@ def nanmax(a, axis=None, keepdims=False, split_every=None, out=None):
 
 
 def _nanmax_skip(x_chunk, axis, keepdims):
-    if x_chunk.size > 0:
-        with warnings.catch_warnings():
-            warnings.filterwarnings(
-                "ignore", "All-NaN slice encountered", RuntimeWarning
-            )
-            return np.nanmax(x_chunk, axis=axis, keepdims=keepdims)
-    else:
-        return asarray_safe(
-            np.array([], dtype=x_chunk.dtype), like=meta_from_array(x_chunk)
-        )
+    empty = _empty_partial(x_chunk, axis) if x_chunk.size == 0 else None
+    if empty is not None:
+        return empty
+    with warnings.catch_warnings():
+        warnings.filterwarnings("ignore", "All-NaN slice encountered", RuntimeWarning)
+        return np.nanmax(x_chunk, axis=axis, keepdims=keepdims)
 
 
 def mean_chunk(
